@@ -846,8 +846,8 @@ class XsdType(XsdComponent):
         Returns `True` if the base type derivation is blocked, `False` otherwise.
         """
         xsd_type = xsd_element.type
-        if self is xsd_type:
-            return False
+        if self is xsd_type or self.name == nm.XSD_ANY_TYPE == xsd_type.name:
+            return False  # each schema has its own xs:anyType instance
 
         block = f'{xsd_element.block} {xsd_type.block}'.strip()
         if not block:
